@@ -1,6 +1,7 @@
 """C16 — valid Metamath proofs translate to checkable proofs of the same statement."""
 from __future__ import annotations
 
+import glob
 import json
 import os
 import random
@@ -309,7 +310,12 @@ def run(rep):
             findings.append({'key': 'translate-raises', 'layout': 'chain', 'n_mp': c['n_mp'], 'python': a, 'database': c['source'][-1200:],
                              'what': f'translation of a valid chain of {c["n_mp"]} modus ponens steps fails: {a}'})
     n_bench = 0
-    bench = ['impreflex-compressed-goal', 'transfer-simple-compressed-goal'] + ([] if quick else ['transfer-goal', 'transfer-batch-1k-goal', 'svm5-goal', 'perceptron-goal'])
+    # the benchmarks the repository itself translates (Makefile: TRANSLATED_PROOFS = proofs/translated/*.ml-proof, built from
+    # generation/mm-benchmarks/<name>.mm with target `goal`); the other .mm files of mm-benchmarks (uncompressed variants,
+    # whole developments without a `goal`) are not translation inputs
+    shipped = sorted(os.path.basename(p)[:-len('.ml-proof')] for p in glob.glob(os.path.join(core.REPO, 'proofs/translated/*.ml-proof')))
+    small = [b for b in shipped if b in ('impreflex-compressed-goal', 'transfer-simple-compressed-goal')]
+    bench = small if quick else shipped
     bl = []
     for b in bench:
         pth = os.path.join(core.REPO, 'generation/mm-benchmarks', b + '.mm')
